@@ -19,7 +19,7 @@ ASSUMPTIONS = ["template keys are spelled exactly as the settings table spells t
 
 
 def nontrivial(c):
-    if c.kind == "download":
+    if c.kind in ("download", "exact"):
         return True
     return c.fields[0] not in ("empty", "-", "")
 
